@@ -5,6 +5,7 @@ import (
 	"os"
 	"runtime"
 	"runtime/metrics"
+	"strings"
 	"sync/atomic"
 	"syscall"
 	"time"
@@ -62,16 +63,76 @@ func markCase(id string) {
 	caseName.Store(id)
 }
 
+// Bubbles: while a synctest bubble is running nothing waits for real time, so a
+// process that consumes no CPU for a long while is not idle but stuck - on a
+// lock, which a bubble cannot see (a goroutine parked on a sync.Mutex is not
+// "durably blocked", so the bubble neither advances its clock nor reports a
+// deadlock).  BubbleEnter / BubbleExit bracket every bubble.
+var (
+	bubbleDepth atomic.Int32
+	bubbleSince atomic.Int64 // unix nanos of the last BubbleEnter
+)
+
+func BubbleEnter() { bubbleSince.Store(time.Now().UnixNano()); bubbleDepth.Add(1) }
+func BubbleExit()  { bubbleDepth.Add(-1) }
+
+// stuckVerdict reports whether the process is stuck: in the dump of all
+// goroutines none but the caller is runnable or running (a process that is
+// merely starved of CPU has runnable goroutines).
+func stuckVerdict() (bool, string) {
+	buf := make([]byte, 8<<20)
+	buf = buf[:runtime.Stack(buf, true)]
+	dump := string(buf)
+	runnable := 0
+	for i, g := range strings.Split(dump, "\n\n") {
+		head := g
+		if j := strings.IndexByte(g, '\n'); j >= 0 {
+			head = g[:j]
+		}
+		if i == 0 {
+			continue // the watchdog itself, running
+		}
+		if strings.Contains(g, "os/signal.signal_recv") {
+			continue // the signal loop sits in [syscall] for ever
+		}
+		if strings.Contains(head, "[runnable") || strings.Contains(head, "[running") || strings.Contains(head, "[syscall") {
+			runnable++
+		}
+	}
+	return runnable == 0, dump
+}
+
 func startWatchdog() {
 	if !wdOnce.CompareAndSwap(false, true) {
 		return
 	}
 	cpuBudget := time.Duration(envInt("VERIF_CASE_CPU_S", 150)) * time.Second
 	heapBudget := int64(envInt("VERIF_CASE_HEAP_MB", 1536)) << 20
+	stuckAfter := time.Duration(envInt("VERIF_BUBBLE_STUCK_S", 45)) * time.Second
 	go func() {
+		var quietSince time.Time
+		var quietCPU int64
 		for {
 			time.Sleep(50 * time.Millisecond)
 			id, _ := caseName.Load().(string)
+			// a bubble that burns (almost) no CPU over a whole window: stuck on a lock?
+			if bubbleDepth.Load() > 0 {
+				c := cpuNanos()
+				switch {
+				case quietSince.IsZero() || time.Unix(0, bubbleSince.Load()).After(quietSince):
+					quietSince, quietCPU = time.Now(), c // a new bubble: a new window
+				case time.Since(quietSince) > stuckAfter:
+					if time.Duration(c-quietCPU) < stuckAfter/50 {
+						if stuck, dump := stuckVerdict(); stuck {
+							fmt.Fprintf(os.Stderr, "verif: stuck scenario %q\n%s\n", id, dump)
+							panic(fmt.Sprintf("verif: stuck scenario: inside a bubble the process used next to no CPU for %v and no goroutine is runnable (goroutines parked on a lock: a deadlock the bubble cannot see)", stuckAfter))
+						}
+					}
+					quietSince, quietCPU = time.Now(), c
+				}
+			} else {
+				quietSince = time.Time{}
+			}
 			if d := time.Duration(cpuNanos() - caseCPU0.Load()); d > cpuBudget {
 				fmt.Fprintf(os.Stderr, "verif: runaway scenario %q\n", id)
 				panic(fmt.Sprintf("verif: runaway scenario: %v of CPU time consumed since the case began, and it has not finished (a goroutine spins)", d.Round(time.Second)))
